@@ -140,6 +140,10 @@ def rule_decl_filter(db: ProgramDB) -> List[Instance]:
     for n in own_nodes(fn.node):
         if isinstance(n, ast.Assign):
             v = n.value
+            # the filter may be wrapped in a fresh From(...)
+            if isinstance(v, ast.Call) and isinstance(db.resolve_dotted(fn.module, v.func), ClassInfo) \
+                    and db.resolve_dotted(fn.module, v.func).name == "From" and len(v.args) == 1:
+                v = v.args[0]
             pred_cls = None
             lazy = None
             if isinstance(v, ast.Call) and dotted(v.func) == "filter" and len(v.args) == 2 and isinstance(v.args[0], ast.Lambda):
